@@ -112,11 +112,17 @@ def build_harness(features=None):
     cmd = ["cargo", "build", "--offline"]
     tdir = os.path.join(HARNESS, "target")
     env = None
+    cov = os.environ.get("VERIF_COVERAGE_DIR")
+    if cov:
+        # tools/covaudit.sh: an instrumented build in a scratch directory (never used by the registered commands)
+        cmd = ["cargo", "+nightly", "build", "--offline"]
+        tdir = os.path.join(cov, "target-harness")
+        env = dict(ENV, CARGO_TARGET_DIR=tdir, RUSTFLAGS="-C instrument-coverage")
     if features:
         # a build with other features gets its own target directory (the binaries would overwrite each other)
         cmd += ["--features", features]
-        tdir = os.path.join(HARNESS, "target-" + features.replace(",", "-"))
-        env = dict(ENV, CARGO_TARGET_DIR=tdir)
+        tdir = os.path.join(cov or HARNESS, "target-" + features.replace(",", "-"))
+        env = dict(env or ENV, CARGO_TARGET_DIR=tdir)
     rc, log = sh(cmd, cwd=HARNESS, timeout=3600, env=env)
     if rc != 0:
         raise BuildError("harness build failed (does /repo still compile?)\n" + log[-3000:])
@@ -130,7 +136,12 @@ def build_rocfl_bin():
         return _built["rocfl"]
     tdir = os.path.join(HARNESS, "target-rocfl")
     env = dict(ENV, CARGO_TARGET_DIR=tdir)
-    rc, log = sh(["cargo", "build", "--offline", "--bin", "rocfl", "--no-default-features"], cwd=REPO, timeout=3600, env=env)
+    cargo = ["cargo"]
+    if os.environ.get("VERIF_COVERAGE_DIR"):
+        tdir = os.path.join(os.environ["VERIF_COVERAGE_DIR"], "target-rocfl")
+        env = dict(ENV, CARGO_TARGET_DIR=tdir, RUSTFLAGS="-C instrument-coverage")
+        cargo = ["cargo", "+nightly"]
+    rc, log = sh(cargo + ["build", "--offline", "--bin", "rocfl", "--no-default-features"], cwd=REPO, timeout=3600, env=env)
     if rc != 0:
         raise BuildError("rocfl build failed\n" + log[-3000:])
     _built["rocfl"] = os.path.join(tdir, "debug", "rocfl")
